@@ -606,6 +606,7 @@ func cmdCheck(args []string) int {
 	}
 	os.MkdirAll(filepath.Join(outRoot(), "replay", prop), 0o755)
 	violations := 0
+	replayBudget := 6
 	discharged := 0
 	claimed := 0
 	covers := 0
@@ -643,7 +644,15 @@ func cmdCheck(args []string) int {
 		violations++
 		failedNames = append(failedNames, r.Ob.Name)
 		path := filepath.Join(outRoot(), "replay", prop, sanitize(strings.TrimPrefix(r.Ob.Name, prop+"/"))+".json")
-		rep := buildReplay(prog, cs, prop, r, timeout)
+		replayBudget--
+		var rep *Replay
+		if replayBudget >= 0 {
+			rep = buildReplay(prog, cs, prop, r, timeout)
+		} else {
+			rep = &Replay{Property: prop, Obligation: r.Ob.Name, Kind: r.Ob.Kind, Clause: r.Ob.Text, At: r.Ob.Pos, Unit: r.Ob.Unit,
+				Status: r.Res.Status, Solver: r.Res.Solver, Output: clip(r.Res.Raw, 4000), PerSolver: r.Res.All,
+				Note: "obligation generated from /repo's current source was not discharged", ReplayLog: "no replay attempted: more than 6 obligations of this check failed, only the first 6 are replayed"}
+		}
 		data, _ := json.MarshalIndent(rep, "", " ")
 		os.WriteFile(path, data, 0o644)
 		suffix := ""
